@@ -41,6 +41,9 @@ impl Stats {
 #[derive(Clone, Debug)]
 pub struct CheckResult {
     pub disc: Option<Discrepancy>,
+    /// a discrepancy of the shared error list (H2) seen earlier in the case; the case was continued after it so
+    /// that its observable consequences (verification, report()) are judged as well
+    pub soft: Option<Discrepancy>,
     /// the real code took the other admissible branch at a don't-care point; the case was cut short without verdict
     pub dontcare_divergent: bool,
     pub stats: Stats,
@@ -488,10 +491,23 @@ pub fn check(case: &Case, trace: &Trace, cfg: BuildCfg, variant: Variant) -> Che
 
 fn check_inner(case: &Case, trace: &Trace, cfg: BuildCfg, variant: Variant) -> CheckResult {
     let mut stats = Stats::default();
-    let mut result = |disc: Option<Discrepancy>, dc: bool, stats: Stats| CheckResult {
-        disc,
-        dontcare_divergent: dc,
-        stats,
+    let soft_cell: std::cell::RefCell<Option<Discrepancy>> = std::cell::RefCell::new(None);
+    let mut result = |disc: Option<Discrepancy>, dc: bool, stats: Stats| {
+        let soft = soft_cell.borrow().clone();
+        match disc {
+            Some(d) => CheckResult {
+                disc: Some(d),
+                soft,
+                dontcare_divergent: dc,
+                stats,
+            },
+            None => CheckResult {
+                disc: soft,
+                soft: None,
+                dontcare_divergent: dc,
+                stats,
+            },
+        }
     };
 
     // ---- construction
@@ -755,7 +771,16 @@ fn check_inner(case: &Case, trace: &Trace, cfg: BuildCfg, variant: Variant) -> C
                 // counters (H2)
                 if let Some(snap) = &o.snap {
                     if let Some(d) = compare_snapshot(&spec, snap, mode, &observed_errors, &at) {
-                        return result(Some(d), false, stats);
+                        if d.props == vec!["C08"] {
+                            // the shared error list differs from the observed mock panics: remember it, and go
+                            // on to see what verification / report() make of it
+                            let mut soft = soft_cell.borrow_mut();
+                            if soft.is_none() {
+                                *soft = Some(d);
+                            }
+                        } else {
+                            return result(Some(d), false, stats);
+                        }
                     }
                     stats.bump("snapshots");
                 }
